@@ -19,14 +19,14 @@ import numpy as np
 PROPERTY = 'C06'
 LEVEL = 'exploration'
 EXHAUSTIVE = True
-RULE = ('finite family of smooth ODEs (autonomous: linear, logistic, oscillator; non-autonomous: cos t, -2ty, '
+RULE = ('finite family of smooth ODEs (autonomous: linear, logistic, oscillator; non-autonomous: cos t, -2ty, the same started where the right-hand side is exactly zero, '
         'y cos t, t^2-y, temperature-ramp forcing, coupled vector) x 3 initial values x {Euler, RK4} x '
         '{direct iterator call, GenericModel.solve}; enumerated completely; a case is non-trivial when its error '
         'sequence is in the asymptotic regime (errors > 1e3 x rounding and decreasing); distinct by (problem, y0, iterator, path)')
 REQUIRED_MONITORS = ['stage_times', 'input_intact', 'order', 'exact_poly']
 REACH = ['solver/Iterators.py:ExplicitEulerIterator', 'solver/Iterators.py:RK4Iterator',
          'solver/Solver.py:DESolver.solve', 'solver/Solver.py:DESolver._getdXdt', 'solver/Solver.py:DESolver._updateX']
-MIN_NONTRIVIAL = {'quick': 40, 'thorough': 40}
+MIN_NONTRIVIAL = {'quick': 60, 'thorough': 60}
 CASE_TIMEOUT = 300
 ASSUMPTIONS = ['order is a limit statement; it is restated on step-halving sequences h..h/8 of a fixed problem family',
                'closed-form solutions of the family are the reference']
@@ -76,6 +76,11 @@ def _problems():
         c = (y0[0] - (np.cos(T0) + np.sin(T0)) / 2)
         return np.array([(np.cos(t) + np.sin(t)) / 2 + c * np.exp(-(t - T0)), y0[1] * np.exp(-(t * t - T0 * T0) / 4)])
     P['vector_nonauto'] = (vec_f, vec_e, False)
+    # started at t0 = 0, where the right-hand side vanishes identically (every component)
+    P['sin_from_zero'] = (lambda t, y: np.sin(t) + 0 * y, lambda t, y0: y0 + 1 - np.cos(t), False)
+    P['gauss_from_zero'] = (lambda t, y: -2 * t * y, lambda t, y0: y0 * np.exp(-t * t), False)
+    P['vector_from_zero'] = (lambda t, y: np.array([-2 * t * y[0], t * y[1]]),
+                             lambda t, y0: np.array([y0[0] * np.exp(-t * t), y0[1] * np.exp(t * t / 2)]), False)
     return P
 
 
@@ -86,6 +91,8 @@ def plan(tier, seed):
     cases = []
     P = _problems()
     for name in P:
+        if name.endswith('_from_zero'):
+            continue
         kind = 'vector' if name in ('oscillator', 'vector_nonauto') else 'scalar'
         for y0 in Y0S[kind]:
             for it in ('euler', 'rk4'):
@@ -95,6 +102,14 @@ def plan(tier, seed):
         for path in ('direct', 'solve'):
             for deg in range(0, 4):
                 cases.append({'kind': 'poly', 'degree': deg, 'iterator': it, 'path': path})
+            for deg in range(1, 4):     # right-hand side exactly zero at the start of the first step
+                cases.append({'kind': 'poly', 'degree': deg, 'iterator': it, 'path': path, 'zero_start': True})
+    for name in ('sin_from_zero', 'gauss_from_zero', 'vector_from_zero'):
+        kind = 'vector' if name.startswith('vector') else 'scalar'
+        for y0 in Y0S[kind]:
+            for it in ('euler', 'rk4'):
+                for path in ('direct', 'solve'):
+                    cases.append({'kind': 'order', 'problem': name, 'y0': y0, 'iterator': it, 'path': path, 't0': 0.0})
     return cases
 
 
@@ -189,13 +204,15 @@ def run_case(case, R):
     if case['kind'] == 'poly':
         deg = case['degree']
         coef = [0.7, -1.1, 0.9, 0.4][:deg + 1]
+        if case.get('zero_start'):
+            coef = [0.0] + [-1.1, 0.9, 0.4][:deg]
 
         def f(t, y):
             return sum(c * t ** k for k, c in enumerate(coef)) + 0 * y
 
         def F(t):
             return sum(c * t ** (k + 1) / (k + 1) for k, c in enumerate(coef))
-        t0, tend = T0, T0 + 1.7
+        t0, tend = (0.0, 1.7) if case.get('zero_start') else (T0, T0 + 1.7)
         y = integ(case, R, f, 0.25, t0, tend, 7, check_stages=False)
         exact = 0.25 + F(tend) - F(t0)
         err = abs(y[0] - exact)
@@ -203,7 +220,7 @@ def run_case(case, R):
         R.worst('poly_err_%s' % case['iterator'], err if should_be_exact else 0.0)
         if should_be_exact:
             R.check('exact_poly', err <= 1e-13 * max(1.0, abs(exact)),
-                    {'iterator': case['iterator'], 'path': case['path'], 'degree_ge1': deg >= 1},
+                    {'iterator': case['iterator'], 'path': case['path'], 'degree_ge1': deg >= 1, 'zero_start': bool(case.get('zero_start'))},
                     degree=deg, error=err, got=y[0], exact=exact)
         else:
             # Euler must NOT be exact for degree>=1: sanity that the oracle can see something
@@ -215,7 +232,8 @@ def run_case(case, R):
     P = _problems()
     f, exact, autonomous = P[case['problem']]
     y0 = np.array(case['y0'], dtype=float) if np.ndim(case['y0']) else float(case['y0'])
-    t0, tend = T0, T0 + 1.2
+    t0 = float(case.get('t0', T0))
+    tend = t0 + 1.2
     base = 6 if case['iterator'] == 'rk4' else 48
     errs = []
     hs = []
